@@ -15,6 +15,7 @@ RULE = ("notification descriptors of every recognised type (picture set/delete, 
         "compared with the Lean model and the oracle checks exactly one acknowledgement / receipt / pong echoing id, type, sender, participant. "
         "distinct = distinct (descriptor, flags, encryption).")
 RULE += (' The relevant stanzas also with an unknown element before / after their own children.')
+RULE += (' Unpresentable payloads include content kinds newer than the bundled schema (unknown fields), with and without a piggy-backed key distribution.')
 ASSUMPTIONS = c06.ASSUMPTIONS + ["a picture notification that is neither set nor delete is rejected with an error by design (excluded by the property)"]
 
 
